@@ -64,6 +64,30 @@ func injectFaults(fresh func() []*doc.Node, emit func(f fault)) {
 				emit(fault{kind: "duplicate-" + kw, nodes: t2, culprits: []*doc.Node{orig, cp}, injected: cp})
 			}
 		}
+		// 1b. the same declaration brought in twice by pasting one macro twice
+		if parent == nil && dupDecl[kw] && kw != "MACRO" {
+			for _, gap := range []bool{false, true} {
+				t := fresh()
+				orig, _ := idxOf(t, k)
+				p1, p2 := doc.N("PASTE", "@dupm"), doc.N("PASTE", "@dupm")
+				var t2 []*doc.Node
+				for _, x := range t {
+					if x == orig {
+						t2 = append(t2, p1)
+						if !gap {
+							t2 = append(t2, p2)
+						}
+						continue
+					}
+					t2 = append(t2, x)
+				}
+				if gap {
+					t2 = append(t2, p2)
+				}
+				t2 = append(t2, doc.N("MACRO", "@dupm").WithParen().WithKids(orig))
+				emit(fault{kind: "duplicate-by-double-paste-" + kw, nodes: t2, culprits: []*doc.Node{orig, p1, p2}})
+			}
+		}
 		// 2. same method on the same path / same URL path twice (top-level blocks), at the end and right after
 		if parent == nil && (kw == "URL" || isMethod(kw)) {
 			for _, pos := range []int{-1, 0} {
